@@ -1274,6 +1274,21 @@ func runC04Case(c C04Case) C04Result {
 	defer w.Close()
 	r0, r1 := w.Replicas[0], w.Replicas[1]
 
+	// the git author/committer of the commits git-bug writes comes from the host configuration: whatever a user has
+	// there, what is committed (and signed, for authors with keys) must read back
+	hostNames := []string{"", "Jane Doe", "Jane Doe <>", "> Jane Doe", " <j> Doe ", "Jäne  Döe\t", "<>"}
+	if hn := hostNames[(len(c.Name)+len(c.Ops))%len(hostNames)]; hn != "" {
+		for _, rep := range w.Replicas {
+			for _, key := range []string{"author.name", "committer.name"} {
+				if err := rep.Repo.LocalConfig().StoreString(key, hn); err != nil {
+					res.HarnessError = "host config: " + err.Error()
+					return res
+				}
+			}
+		}
+		res.Counts["host_author_name_variants/"+hn]++
+	}
+
 	x := &c04Exec{c: c, res: &res, backend: "gogit", now: 1_700_000_000}
 	authors, err := x.makeAuthors(r0.Repo, r0.KR)
 	if err != nil {
